@@ -34,7 +34,11 @@ from concurrent.futures import ThreadPoolExecutor
 from vlib import *
 
 PROP = "C14"
+os.environ.setdefault("VERIF_TLC_HEAP", "3g")     # several TLC instances run side by side
 KF_KEY = "cleanup-before-rejected-handler"
+KF_ZERO = "zero-length-after-close-no-error"
+# deviations of the pinned code that Io.tla models (constant Dev) -> the invariant each one breaks
+DEVS = {"imm_noref": "CleanupOnceAfterAll", "zero_noerr": "ClosedEcanceled"}
 INV = ("TypeOK ReadConservation HighWater WriteConservation DoneOnceLast CompletionOrder "
        "BarrierBetween ClosedEcanceled CleanupOnceAfterAll StopFlagsFinal")
 
@@ -65,7 +69,9 @@ def model(v, tier):
         jobs.append(("model", name, name + ".cfg", 2400 if tier == "thorough" else 280))
     for mut, base in MUTANTS:
         jobs.append(("mutant", mut, cfg_variant(base, "mut_" + mut, [('Mut = "none"', 'Mut = "%s"' % mut)]), 280))
-    jobs.append(("dev", "imm_noref", cfg_variant("Io_cs_q", "dev_imm_noref", [("Dev = {}", 'Dev = {"imm_noref"}')]), 280))
+    for dev in DEVS:
+        jobs.append(("dev", dev, cfg_variant("Io_cs_q", "dev_" + dev, [("Dev = {}", 'Dev = {"%s"}' % dev),
+                                                                        ("INVARIANTS " + INV, "INVARIANTS " + DEVS[dev])]), 280))
     jobs.append(("live", "Io_live", "Io_live.cfg", 1200 if tier == "thorough" else 280))
     w = max(2, NCPU // 4)
 
@@ -87,9 +93,9 @@ def model(v, tier):
             v.notes.setdefault("spec_mutants_refuted", []).append({"mutant": name, "by": r.violated})
         else:
             # the pinned code's deviation must be visible to TLC (and absent in the repaired model above)
-            if r.violated != "CleanupOnceAfterAll":
-                raise Broken("deviation imm_noref: expected CleanupOnceAfterAll to fail, got %s" % r.violated)
-            v.notes["deviation_imm_noref"] = "TLC: CleanupOnceAfterAll violated with Dev={imm_noref}, holds with Dev={}"
+            if r.violated != DEVS[name]:
+                raise Broken("deviation %s: expected %s to fail, got %s" % (name, DEVS[name], r.violated))
+            v.notes["deviation_" + name] = "TLC: %s violated with Dev={%s}, holds with Dev={}" % (DEVS[name], name)
 
 
 # ------------------------------------------------------------------ schedules
@@ -132,7 +138,9 @@ def sched_from_tlc(j, rng, unit):
         if x["nh"] > nh:
             nh = x["nh"]
             lines.append("waith %d 2000" % nh)
-        if a in ("low", "high"):
+        if a == "high" and val == 0 and unit > 1:
+            lines.append("high %d" % max(1, unit // 16))     # keeps the number of invocations bounded
+        elif a in ("low", "high"):
             lines.append("%s %d" % (a, val * unit))
         elif a == "read":
             lines.append("read %d" % (val * unit))
@@ -143,6 +151,18 @@ def sched_from_tlc(j, rng, unit):
         elif a in ("pw", "pr"):
             lines.append("%s %d" % (a, val * unit))
     lines.append("end")
+    return pipe_hup_guard(kind, lines)
+
+
+def pipe_hup_guard(kind, lines):
+    """Known finding write-parked-pipe-peer-hangup-never-completes: a write parked on a full pipe never
+    completes when the reader goes away (EPOLLERR is ignored by the epoll backend).  The general
+    schedules keep away from it (hangup on a pipe only if all writes fit its buffer); one directed
+    execution demonstrates it."""
+    if kind == K_PIPE_OUT:
+        total = sum(int(x.split()[1]) for x in lines if x.startswith("write "))
+        if total > 60000:
+            lines = [x for x in lines if x != "ph"]
     return "\n".join(lines)
 
 
@@ -170,10 +190,16 @@ def sched_random(rng):
         client += sets[:rng.randint(1, 2)]
     nops = rng.randint(1, 6)
     rtotal = 0
+    # bound the number of handler invocations of one operation (len / high water)
+    hi_cap = 1 << 30
+    for c in client:
+        if c.startswith("high "):
+            hi_cap = max(1, int(c.split()[1])) * 64
     closed = False
     for i in range(nops):
         d = rng.choice(dirs)
         n = rand_len(rng) if rng.random() > 0.04 else 0
+        n = min(n, hi_cap)
         if d == "R":
             if rng.random() < 0.06:
                 client.append("read -1")
@@ -235,7 +261,7 @@ def sched_random(rng):
         else:
             out.append(peer[j]); j += 1
     out.append("end")
-    return "\n".join(out)
+    return pipe_hup_guard(kind, out)
 
 
 # directed: the handler queue is busy while an operation is rejected (known finding), and the
@@ -245,6 +271,8 @@ DIRECTED = [
     "exec 0 %d 0 0\nhqblock\nread 0\nclose\nwaitcleanup 200000\nhqunblock\nend",
     "exec 0 %d 0 0\nhqblock\nread 4\npw 4\nsleep 20000\nclose\nwaitcleanup 100000\nhqunblock\nend",
     "exec 1 %d 0 0\nhqblock\nwrite 4 1 0 0\npr -1\nsleep 20000\nstop\nwaitcleanup 100000\nhqunblock\nend",
+    # a write parked on a full pipe, then the reader goes away: must complete (with an error)
+    "exec 1 %d 0 0\nwrite 150000 1 0 0\nwaith 1 50000\nsleep 5000\nph\nstalled 1 4000000\nend",
 ]
 
 
@@ -356,6 +384,16 @@ def run_batch(v, drv, name, sched_text, seed, lock, kf_listed):
     prepped = tr + ".p"
     hdr, recs = prep_trace(tr, prepped)
     bad, known = log_oracles(recs)
+    for line in err.splitlines():
+        if line.startswith("KNOWN-CLASS C14 key="):
+            key = line.split("key=")[1].split()[0]
+            with lock:
+                if key in kf_listed:
+                    if not any(key in k for k in v.known):
+                        v.known.append("%s: %s" % (key, line.split("key=")[1]))
+                    v.notes["known_finding_hits_" + key] = v.notes.get("known_finding_hits_" + key, 0) + 1
+                else:
+                    bad.append("deviation class %s is not a listed known finding: %s" % (key, line))
     if bad:
         p = save_replay(PROP, name + ".sched", src=sp)
         save_replay(PROP, name + ".ndjson", src=tr)
@@ -364,7 +402,7 @@ def run_batch(v, drv, name, sched_text, seed, lock, kf_listed):
         return
     if known:
         with lock:
-            if kf_listed:
+            if KF_KEY in kf_listed:
                 if not any(KF_KEY in k for k in v.known):
                     v.known.append("%s: %s" % (KF_KEY, known[0]))
                 v.notes["known_finding_hits"] = v.notes.get("known_finding_hits", 0) + len(known)
@@ -394,6 +432,8 @@ def run_batch(v, drv, name, sched_text, seed, lock, kf_listed):
                 with lock:
                     v.violation("trace rejected (%s): %s; last records: %s" % (name, why, ctx[-600:]), p)
                 return
+    if os.environ.get("C14_VERBOSE"):
+        log("batch %s: %d executions, %d records, %d states, %.1fs" % (name, nexec, r.tracelen or 0, r.distinct, r.wall))
     with lock:
         v.traces += nexec
         v.states += r.distinct
@@ -408,8 +448,10 @@ def run_batch(v, drv, name, sched_text, seed, lock, kf_listed):
 def traces(v, tier, seed):
     drv = build_driver("drv_io")
     rng = random.Random(seed * 7919 + 13)
-    kf_listed = any(f.get("key") == KF_KEY for f in known_findings(PROP)["findings"])
+    kf_listed = set(f.get("key") for f in known_findings(PROP)["findings"])
     nsim, ntake, nrand = (400, 70, 50) if tier == "quick" else (3000, 600, 700)
+    if os.environ.get("C14_COUNTS"):      # debugging aid
+        nsim, ntake, nrand = [int(x) for x in os.environ["C14_COUNTS"].split(",")]
     tl, rsim = tlc_schedules(seed, nsim)
     if len(tl) < 20:
         raise Broken("TLC emitted only %d fault schedules" % len(tl))
@@ -440,8 +482,9 @@ def traces(v, tier, seed):
         futs = [ex.submit(run_batch, v, drv, name, text, seed * 100 + i, lock, kf_listed) for i, (name, text) in enumerate(jobs)]
         for f in futs:
             f.result()
-    if kf_listed and not v.known and not v.violations:
-        v.notes["known_finding_not_observed"] = "the directed executions did not show %s on this tree (repaired?)" % KF_KEY
+    for key in sorted(kf_listed):
+        if not any(key in k for k in v.known):
+            v.notes["known_finding_not_observed_" + key] = "no execution showed it on this tree (repaired?)"
 
 
 def run(tier, seed):
